@@ -170,9 +170,21 @@ Proof.
   apply Ho. exact O.
 Qed.
 
+(* lia without the flag equations (rotten t' = rotten t, inesc s = false, ...): ZifyBool makes each of them a case split *)
+Ltac clear_flags :=
+  repeat match goal with
+         | H : @eq bool ?a ?b |- _ =>
+             lazymatch a with
+             | context [Z.eqb] => fail | context [Z.ltb] => fail | context [Z.leb] => fail
+             | context [andb] => fail | context [orb] => fail
+             | _ => clear H
+             end
+         end.
+Ltac flia := clear_flags; lia.
+
 Ltac csolve v Og :=
   unfold clampy, clamp, one, line in *;
-  let O := fresh "O" in destruct (v_origin v) eqn:O; [specialize (Og eq_refl)|clear Og]; split_ifs; lia.
+  let O := fresh "O" in destruct (v_origin v) eqn:O; [specialize (Og eq_refl)|clear Og]; clear_flags; split_ifs; lia.
 
 Lemma clampy_in v y : (v_origin v = true -> v_top v <= y <= v_bot v) -> 0 <= y < v_h v -> clampy v y = y.
 Proof. intros Og Hy. csolve v Og. Qed.
